@@ -93,6 +93,9 @@ def eval_family(kind, key, sizes, exact=False):
     runs = 0
     res = {"kind": kind, "key": key, "status": "linear", "window": None, "decided_by": None}
     detail = kind != "pair"  # single-construct families: per-function counts and bulk items too
+    # the 360 generated compound-literal constructs differ only in which
+    # '( type-name )' site they enter: call counters yes, bulk / line passes no
+    generated = kind == "nest" and key.startswith("cl/") and key not in F.CL_PAIRED
     per_funcs = []
     for i, size in enumerate(sizes):
         text = family_text(kind, key, size)
@@ -172,7 +175,7 @@ def eval_family(kind, key, sizes, exact=False):
         if worst:
             res.update(status="superlinear", window=worst[2], decided_by=COUNTERS[2],
                        function=worst[1], function_calls=worst[3], origin=[worst[1]])
-    if detail and res["status"] == "linear" and len(steps) >= 3:
+    if detail and not generated and res["status"] == "linear" and len(steps) >= 3:
         # (4) items moved by builtin bulk container operations called from
         # parser code (dict(x), x.copy(), x.clear(), sorted(x), ...)
         bulk, callers = [], []
@@ -190,7 +193,7 @@ def eval_family(kind, key, sizes, exact=False):
                 res.update(status="superlinear", window=w, decided_by=COUNTERS[3], origin=[top],
                            bulk_callers=by)
                 break
-    if detail and res["status"] == "linear" and len(steps) >= 3:
+    if detail and not generated and res["status"] == "linear" and len(steps) >= 3:
         # (5) source lines executed per parser function (LINE events): sees a
         # loop that calls nothing - e.g. re-walking a declarator chain for
         # every suffix
@@ -598,7 +601,7 @@ def plan(tier):
         if F.self_nests(name):
             if name in systematic and name not in F.CL_PAIRED:
                 # 360 generated constructs: every one alone, no function census
-                fams.append(("nest", name, _doubling(2, 16) if quick else nest_sizes, False, True))
+                fams.append(("nest", name, _doubling(2, 16 if quick else 32), False, True))
             else:
                 fams.append(("nest", name, nest_sizes, True, True))
     pair_names = F.PAIR_NAMES_QUICK if quick else F.PAIR_NAMES
@@ -753,6 +756,7 @@ def run(tier):
     run_res = []
     for part in core.pmap(_run_work, core.chunked(run_tasks, 4), chunksize=1):
         run_res.extend(part)
+    t_ph.append(time.time())
     timed_names = list(F.TIMED_REPEAT_QUICK) if tier == "quick" else F.repeat_names()
     timed_res = []
     for part in core.pmap(_timed_repeat_work, [[n] for n in timed_names], chunksize=1):
